@@ -1,10 +1,17 @@
 """C41 — mail text codecs: real imap4 "imap4-utf-7" codec and smtp xtext codec vs the Lean model, + oracle.
 
-Cases are {"op": ..., "cps": [code points]} for text inputs and {"op": ..., "hex": "…"} for byte inputs.
+Cases are {"op": ..., "cps": [code points]} for text inputs and {"op": ..., "hex": "…"} for byte inputs;
+{"op": "u7seq", "seq": [[code points], …]} / {"op": "xseq", "seq": ["hex", …]} are HISTORIES: several round trips made
+one after the other in the same interpreter (state left over by an earlier call is part of the case).  An optional
+"via" says through which door the real codec is entered ("codec" = str.encode/bytes.decode through the codec registry
+(default), "direct" = the module functions with their default `errors`, "ba" = the encoded value handed to the decoder
+as a bytearray / the xtext input as a bytearray); the model has one door, so the driver line does not mention it.
 """
 import base64
 import binascii
+import codecs
 import re
+import unicodedata
 
 import twisted.mail.imap4 as imap4  # registers "imap4-utf-7"
 from twisted.mail import smtp
@@ -14,12 +21,32 @@ RULE = ("texts over all code points weighted to C0 controls (TAB/LF/CR separatel
         "Latin-1, BMP, surrogate-adjacent and astral code points, run lengths 0..9 so that every base64 phase "
         "(16n mod 6) and every boundary printable/&/non-printable occurs; byte strings over all 256 values weighted "
         "to '+', '=', hex digits, 32/33/126/127; decoders additionally on mutated encoder output and random bytes; "
-        "CPython's own utf-7/utf-16-be/base64 against the model's transcription of them; "
-        "distinct = (op, character classes present, outcome class)")
+        "CPython's own utf-7/utf-16-be/base64 against the model's transcription of them. "
+        "Added by the white-box mutation audit (harness/mutants/C41): LONG texts/byte strings (13..300, lengths at 28/29 "
+        "UTF-16 units = one 57-byte base64 line, 57/58, 64/65, 72, 76, 128, 256; thorough every run length 1..300 and "
+        "512..8193) as one homogeneous or mixed run, framed, printable-only or segmented; UNICODE-SPECIAL strings taken from "
+        "this interpreter's unicodedata (decomposed sequences, NFC/NFKC-unstable code points, precomposed letters, "
+        "case-mapped letters, Unicode white space/format characters, combining marks after a base letter, numerics) "
+        "plus a hand list (Hangul jamo, flags, ZWJ, CRLF, noncharacters, private use); LOOK-ALIKES: texts that are "
+        "themselves an encoding ('&AOk-', 'R&D-lab', '+AOk-', '&' + base64 letters + '-', double encodings) and byte "
+        "strings that look like an escape of another syntax ('%41', '=41', '+41', '\\x41', double encodings), also fed "
+        "straight to the decoders in encoded form; HISTORIES (u7seq/xseq): 2..4 round trips in one interpreter, "
+        "texts that end inside a base64 run, the same value again, the same value in the other case; SWEEPS in both tiers: "
+        "every printable ASCII character alone and between two runs, every C0/C1/Latin-1 code point, every byte value "
+        "followed by two hex digits; other DOORS into the codec (module functions with default errors, codecs.encode/"
+        "decode, bytearray arguments). "
+        "distinct = (op, character classes present, +long/+uni/+look, door, outcome class)")
 ASSUMES = [
     "a Python str is a sequence of code points < 0x110000; 'no lone surrogates' = no code point in D800..DFFF",
     "xtext: the argument of xtext_encode is a bytes object (the statement's domain); the decoded value is a str whose "
     "code points are compared with the byte values (xtext_decode returns str by design, see test_smtp.testXtextEncoding)",
+    "'the codec' = the functions registered with the codec registry (imap4.encoder/decoder reached by str.encode / "
+    "bytes.decode / bytearray.decode or called directly; smtp.xtext_encode/xtext_decode called directly, through "
+    "codecs.encode/decode, or with a bytearray); the stateless StreamReader/StreamWriter wrappers are not exercised "
+    "(observed while auditing: imap4.StreamReader.readline() splits its input in 72-byte chunks and decodes each on its own, "
+    "so a shift sequence straddling a chunk boundary raises; codecs.getreader/getwriter('xtext') raise AttributeError "
+    "because xtext_codec returns a plain tuple — neither is reachable from twisted itself)",
+    "a history (u7seq/xseq) is a sequence of calls in ONE interpreter; every call in it is judged by the statement on its own",
 ]
 TRUSTED = [
     "CPython's utf-7 decoder, utf-16-be encoder and binascii.b2a_base64 as transcribed in TwistedModel/Mail/Utf7.lean "
@@ -38,7 +65,9 @@ MANIFEST = {
             "of imap4.decoder (incl. CPython's utf-7 decoder at bit level) maps it back; for every byte string the model of "
             "smtp.xtext_encode produces RFC 3461 xtext and xtext_decode maps it back; xtext_encode is regenerated from smtp.py by the "
             "translator on every run and proved equal to the model's (gen_xtextEncode). Models tied to imap4.py/smtp.py and "
-            "to CPython's codecs by differential runs.",
+            "to CPython's codecs by differential runs (incl. long inputs up to 8193, Unicode-special strings, texts/byte "
+            "strings that look like encodings, and histories of calls: utf7_history_decode_encode / "
+            "xtext_history_decode_encode state that in the model no call's answer depends on an earlier one).",
     "note": "trusts Lean kernel, the hand-written models (differentially tied on every run), CPython codecs as transcribed",
     "technique": "Lean 4 proof (bit-stream base64/UTF-16 inversion, induction over the encoder loop) + differential tie + "
                  "translator-regenerated kernel (xtext_encode) proved equal to the model",
@@ -160,6 +189,280 @@ def _x_bytes(rng):
     return bytes(rng.choice(XALPHA) if rng.random() < 0.85 else rng.randrange(256) for _ in range(n))
 
 
+# ---------------------------------------------------------------------------------------
+# enlarged input classes (white-box mutation audit, harness/mutants/C41/README.md)
+
+# Lengths at the boundaries codec code is written around: 57 bytes = one 76-column base64 line = 28.5 UTF-16 units,
+# 72 (codecs.StreamReader chunk), 76/78 (MIME line), powers of two, 255/256; thorough: 512 … 8193.
+LONG_Q = [13, 14, 15, 16, 19, 24, 28, 29, 30, 31, 32, 33, 38, 39, 48, 57, 58, 63, 64, 65, 66, 72, 73, 76, 77, 78, 96, 100,
+          127, 128, 129, 192, 255, 256, 257]
+LONG_T = [511, 512, 513, 1000, 1023, 1024, 1025, 2048, 4095, 4096, 4097, 8191, 8192, 8193]
+
+
+def _long_n(rng, tier):
+    r = rng.random()
+    if tier == "thorough" and r < 0.01:
+        return rng.choice(LONG_T)
+    if r < 0.65:
+        return rng.choice(LONG_Q)
+    return rng.randrange(13, 300)
+
+
+def _np(rng):
+    """a code point the encoder has to put into a base64 run (not printable ASCII, not a surrogate)"""
+    r = rng.random()
+    if r < 0.12:
+        return rng.choice(WS)
+    if r < 0.26:
+        return rng.choice(CTRL)
+    if r < 0.40:
+        return rng.choice(LATIN)
+    if r < 0.65:
+        return rng.choice(BMP)
+    if r < 0.85:
+        return rng.choice(ASTRAL)
+    while True:
+        c = _uni_atom(rng)[-1]
+        if c > 0x7E:
+            return c
+
+
+def _pr(rng):
+    return rng.randrange(0x20, 0x7F)
+
+
+def _long_text(rng, tier):
+    n = _long_n(rng, tier)
+    shape = rng.random()
+    if shape < 0.40:            # ONE run of n characters (homogeneous or mixed), bare or framed by printable text
+        run = [_np(rng)] * n if rng.random() < 0.5 else [_np(rng) for _ in range(n)]
+        pre = [_pr(rng) for _ in range(rng.choice([0, 0, 1, 3]))]
+        post = [_pr(rng) for _ in range(rng.choice([0, 0, 1, 3]))]
+        return pre + run + post
+    if shape < 0.55:            # n printable characters with a few '&' / one-character runs inside
+        t = [_pr(rng) for _ in range(n)]
+        for _ in range(rng.choice([0, 1, 2, 5])):
+            t[rng.randrange(n)] = rng.choice([0x26, 0xE9, 10, 0x1F600, 0x2D])
+        return t
+    t = []                      # segments: runs and printable stretches of boundary lengths
+    while len(t) < n:
+        k = rng.choice([1, 2, 3, 5, 8, 13, 29, 33, 65])
+        if rng.random() < 0.55:
+            t += [_np(rng)] * k if rng.random() < 0.3 else [_np(rng) for _ in range(k)]
+        else:
+            t += [_pr(rng) for _ in range(k)]
+    return t[:n]
+
+
+def _long_bytes(rng, tier):
+    n = _long_n(rng, tier)
+    shape = rng.random()
+    if shape < 0.2:
+        return bytes([rng.choice(BVALS)]) * n
+    if shape < 0.5:
+        return bytes(rng.choice(BVALS) if rng.random() < 0.7 else rng.randrange(256) for _ in range(n))
+    if shape < 0.8:             # an address-like value: xchars with a few bytes that need escaping
+        t = bytearray(rng.randrange(0x21, 0x7F) for _ in range(n))
+        for _ in range(rng.choice([0, 1, 2, 5])):
+            t[rng.randrange(n)] = rng.choice([0x2B, 0x3D, 0x20, 0x0A, 0x7F, 0xFF, 0x00])
+        return bytes(t)
+    return bytes(rng.randrange(256) for _ in range(n))
+
+
+# --- strings that Unicode-aware str methods treat specially (normalisation, case mapping, whitespace, format characters …)
+UNI_SEQ = [[0x65, 0x301], [0x41, 0x30A], [0x6F, 0x308], [0x63, 0x327], [0x1100, 0x1161], [0x1100, 0x1161, 0x11A8],
+           [0x304B, 0x3099], [0x61, 0x307, 0x323], [0x61, 0x323, 0x307], [0x3C9, 0x301], [0x73, 0x323, 0x307],
+           [0x1F1E9, 0x1F1EA], [0x1F468, 0x200D, 0x1F469], [0x2764, 0xFE0F], [0x0D, 0x0A], [0x0A, 0x0D]]
+UNI_CP = [0x212B, 0x2126, 0x212A, 0x340, 0x341, 0x343, 0x374, 0x37E, 0x387, 0x1F71, 0x2000, 0x2001, 0x2329, 0xF900, 0xFB1D,
+          0x958, 0x2F800, 0x1D15E, 0x1E69, 0xAC00, 0x304C, 0xFB01, 0xB5, 0x2460, 0xFF21, 0xAA, 0x2122, 0xDF, 0x130, 0x131,
+          0x17F, 0x3A3, 0x3C3, 0x3C2, 0x1E9E, 0x10400, 0x10428, 0x85, 0xA0, 0x1680, 0x2002, 0x200A, 0x2028, 0x2029, 0x202F,
+          0x205F, 0x3000, 0x180E, 0x200B, 0x1C, 0x1D, 0x1E, 0x1F, 0x0B, 0x0C, 0xAD, 0x200E, 0x200F, 0x202A, 0x202E, 0x2060,
+          0x2066, 0xFEFF, 0xFFF9, 0xE0001, 0xE0100, 0xFDD0, 0xFFFE, 0xFFFF, 0x1FFFE, 0x10FFFE, 0x10FFFF, 0x378, 0xE000,
+          0xF8FF, 0xF0000, 0x660, 0xFF10, 0x966, 0xB2, 0x2155, 0x3002, 0x80, 0x9F, 0xD7, 0xF7]
+_UNI = None
+
+
+def _uni_pools():
+    """Code points this interpreter's Unicode database treats specially, by kind (computed once per process)."""
+    global _UNI
+    if _UNI is None:
+        pools = {k: [] for k in ("nfc", "nfd", "nfkc", "case", "space", "comb", "digit")}
+        ranges = [(0x80, 0x3400), (0xA000, 0xAC80), (0xD780, 0xD7A4), (0xF900, 0x10000), (0x10000, 0x12000),
+                  (0x16E00, 0x17000), (0x1D000, 0x1F300), (0x2F800, 0x2FA1E), (0xE0000, 0xE0200)]
+        for lo, hi in ranges:
+            for c in range(lo, hi):
+                if 0xD800 <= c <= 0xDFFF:
+                    continue
+                ch = chr(c)
+                nfc = unicodedata.normalize("NFC", ch) != ch
+                if nfc:
+                    pools["nfc"].append(c)
+                if unicodedata.normalize("NFD", ch) != ch:
+                    pools["nfd"].append(c)
+                if not nfc and unicodedata.normalize("NFKC", ch) != ch:
+                    pools["nfkc"].append(c)
+                if ch.lower() != ch or ch.upper() != ch or ch.casefold() != ch:
+                    pools["case"].append(c)
+                if ch.isspace() or unicodedata.category(ch) in ("Zs", "Zl", "Zp", "Cf"):
+                    pools["space"].append(c)
+                if unicodedata.combining(ch):
+                    pools["comb"].append(c)
+                if ch.isnumeric():
+                    pools["digit"].append(c)
+        _UNI = pools
+    return _UNI
+
+
+def _uni_atom(rng):
+    u = _uni_pools()
+    r = rng.random()
+    if r < 0.22:        # a decomposed sequence (NFC/NFKC change it)
+        return cps_of(unicodedata.normalize("NFD", chr(rng.choice(u["nfd"]))))
+    if r < 0.34:
+        return [rng.choice(u["nfc"])]
+    if r < 0.42:
+        return [rng.choice(u["nfd"])]
+    if r < 0.50:
+        return [rng.choice(u["nfkc"])]
+    if r < 0.58:
+        return [rng.choice(u["case"])]
+    if r < 0.66:
+        return [rng.choice(u["space"])]
+    if r < 0.72:
+        return [rng.choice([0x65, 0x61, 0x41, 0x6F, 0x3B1]), rng.choice(u["comb"])]
+    if r < 0.76:
+        return [rng.choice(u["digit"])]
+    if r < 0.88:
+        return list(rng.choice(UNI_SEQ))
+    return [rng.choice(UNI_CP)]
+
+
+def _uni_text(rng):
+    t = []
+    for _ in range(rng.choice([1, 1, 2, 2, 3, 4, 6])):
+        r = rng.random()
+        if r < 0.70:
+            t += _uni_atom(rng)
+        elif r < 0.85:
+            t.append(rng.choice([0x65, 0x61, 0x41, 0x20, 0x26, 0x2D, 0x6F]))
+        else:
+            t.append(_cp(rng))
+    return t
+
+
+# --- look-alikes: the INPUT contains what another layer would take for an escape (the text is itself an encoding)
+B64CH = "ABCDEFGHIJKLMNOPQRSTUVWXYZabcdefghijklmnopqrstuvwxyz0123456789+,"
+U7_LOOK = ["&", "-", "&-", "+", "+-", "&AOk-", "+AOk-", "&AOk", "AOk-", "&-AOk-", ",", "/", "=", "&amp;", "&#233;", "%26",
+           "=26", "\\u00e9", "=?utf-7?Q?", "R&D-", "&,-", "&+-", "&AAA-", "&AAAA-", "é", "\n", " ", "a", "~", "--", "&&"]
+X_LOOK = [b"+41", b"%41", b"=41", b"+2B", b"+3D", b"+", b"=", b"+4", b"4", b"1", b"+2b", b"%2B", b"%", b"%%", b"\\x41",
+          b"&#65;", b"=3D", b"+zz", b"+-1", b"+ 4", b" ", b"\n", b"\xff", b"A", b"%0A", b"%zz", b"+0A", b"_", b"1_0"]
+
+
+def _ref_u7(s):
+    """RFC 3501 §5.1.3 writer built from the stdlib only (used to GENERATE texts that look like encodings)."""
+    out, run = [], []
+
+    def flush():
+        if run:
+            raw = "".join(run).encode("utf-16-be", "surrogatepass")
+            out.append(b"&" + base64.b64encode(raw).rstrip(b"=").replace(b"/", b",") + b"-")
+            del run[:]
+    for ch in s:
+        if ch == "&":
+            flush()
+            out.append(b"&-")
+        elif " " <= ch <= "~":
+            flush()
+            out.append(ch.encode("ascii"))
+        else:
+            run.append(ch)
+    flush()
+    return b"".join(out)
+
+
+def _ref_xtext(b):
+    return re.sub(rb"[^!-*,-<>-~]", lambda m: b"+%02X" % m.group()[0], b)
+
+
+def _u7_lookalike(rng):
+    if rng.random() < 0.3:      # double encoding: the text is the encoding of another text
+        return cps_of(_ref_u7(to_str(_text(rng))).decode("ascii"))
+    atoms = []
+    for _ in range(rng.choice([1, 2, 2, 3, 4, 5])):
+        if rng.random() < 0.3:
+            atoms.append("&" + "".join(rng.choice(B64CH) for _ in range(rng.choice([1, 2, 3, 4, 8])))
+                         + rng.choice(["-", "-", ""]))
+        else:
+            atoms.append(rng.choice(U7_LOOK))
+    return cps_of("".join(atoms))
+
+
+def _x_lookalike(rng):
+    if rng.random() < 0.3:
+        return _ref_xtext(_bytes(rng))
+    atoms = []
+    for _ in range(rng.choice([1, 2, 2, 3, 4, 5])):
+        r = rng.random()
+        if r < 0.35:            # any xchar (or '+', '=') followed by two hex digits
+            atoms.append(bytes([rng.randrange(0x21, 0x7F)]) + bytes(rng.choice(b"0123456789ABCDEFabcdef") for _ in range(2)))
+        else:
+            atoms.append(rng.choice(X_LOOK))
+    return b"".join(atoms)
+
+
+# --- histories: several round trips one after the other (state left behind by an earlier call)
+def _open_ended(rng):
+    """a text that ends inside a base64 run (what a scratch buffer would still hold after the call)"""
+    return _text(rng) + [_np(rng) for _ in range(rng.choice([1, 1, 2, 3]))]
+
+
+def _u7_seq(rng):
+    items = []
+    for _ in range(rng.choice([2, 2, 3, 4])):
+        r = rng.random()
+        items.append(_open_ended(rng) if r < 0.5 else _text(rng) if r < 0.8 else _uni_text(rng))
+    r = rng.random()
+    if r < 0.2:
+        items[-1] = list(items[0])                              # the same value again (a cache hit)
+    elif r < 0.4:
+        items[-1] = cps_of(to_str(items[0]).swapcase())         # equal under case folding, not equal
+    return items
+
+
+def _x_seq(rng):
+    items = [(_bytes(rng) if rng.random() < 0.7 else _x_lookalike(rng)) for _ in range(rng.choice([2, 2, 3, 4]))]
+    r = rng.random()
+    if r < 0.2:
+        items[-1] = items[0]
+    elif r < 0.4:
+        items[-1] = items[0].swapcase()
+    return [b.hex() for b in items]
+
+
+def _via(rng, choices):
+    return rng.choice(choices) if rng.random() < 0.12 else None
+
+
+def _with_via(case, via):
+    if via:
+        case["via"] = via
+    return case
+
+
+def _sweeps():
+    """Deterministic, run in BOTH tiers: every printable ASCII character alone and between two runs, every C0/C1/Latin-1
+    code point, every byte value through xtext followed by two hex digits (`%41`, `=41`, `+41`, `\\41` …)."""
+    for p in range(0x20, 0x7F):
+        yield {"op": "u7rt", "cps": [p]}
+        yield {"op": "u7rt", "cps": [0xE9, p, 0x10000, p, p]}
+    for c in range(0x20):
+        yield {"op": "u7rt", "cps": [0x41, c, 0xE9]}
+    for c in range(0x7F, 0x100):
+        yield {"op": "u7rt", "cps": [c]}
+    for b in range(256):
+        yield {"op": "xrt", "hex": bytes([b, 0x34, 0x31, b]).hex()}
+
+
 def corpus():
     out = [
         # xtext witnesses
@@ -194,32 +497,82 @@ def corpus():
         {"op": "pydec", "hex": b"+AOk-+-+".hex()},
         {"op": "pydec", "hex": b"+2D0+3gA-".hex()},
         {"op": "pyenc", "cps": [0xE9, 0x41, 0xE9, 0x21, 0x2B, 9, 0]},
+        # witnesses of the white-box mutants (harness/mutants/C41): long runs (base64 line length, run-length thresholds) …
+        {"op": "u7rt", "cps": [0xE9] * 29},
+        {"op": "u7rt", "cps": [0x1F600] * 15},
+        {"op": "u7rt", "cps": [0xE9] * 65},
+        {"op": "u7rt", "cps": [0x41] + [0x65E5] * 129 + [0x2D]},
+        {"op": "b64", "hex": (b"\x00\xe9" * 29).hex()},
+        {"op": "xrt", "hex": (b"a+\n" * 22).hex()},
+        {"op": "xrt", "hex": (b"user=name+tag@example.org " * 11).hex()},
+        # … Unicode normalisation / case / whitespace, a printable character an IMAP parser finds special …
+        {"op": "u7rt", "cps": [0x65, 0x301]},
+        {"op": "u7rt", "cps": [0x212B, 0x20, 0xC5, 0x20, 0x41, 0x30A]},
+        {"op": "u7rt", "cps": [0x1100, 0x1161, 0x11A8, 0xAC01]},
+        {"op": "u7rt", "cps": [0x20, 0x3000, 0x2028, 0x85, 0xA0, 0x20]},
+        {"op": "u7rt", "cps": cps_of('a"b*c%d\\e(f)g{h}')},
+        # … texts that look like an encoding, values that look like an escape of another syntax …
+        {"op": "u7rt", "cps": cps_of("R&D-lab")},
+        {"op": "u7rt", "cps": cps_of("&AOk-")},
+        {"op": "u7rt", "cps": cps_of("+AOk- &- &&- é&AOk-")},
+        {"op": "xrt", "hex": b"100%41".hex()},
+        {"op": "xrt", "hex": b"=41 +41 %2B \\x41 +2B41".hex()},
+        {"op": "xrt", "hex": bytes([0xA4, 0xA6, 0xA8, 0xB4, 0xB8, 0xBC, 0xBD, 0xBE, 0x80, 0x9F]).hex()},
+        # … histories (a scratch buffer or a cache surviving the call), other doors into the codec
+        {"op": "u7seq", "seq": [[0xE9], cps_of("abc"), [0xE9]]},
+        {"op": "u7seq", "seq": [cps_of("INBOX"), cps_of("inbox"), cps_of("INBOX")]},
+        {"op": "xseq", "seq": [b"a+".hex(), b"A+".hex(), b"a+".hex(), ""]},
+        {"op": "u7rt", "cps": cps_of("Entwürfe & mehr"), "via": "direct"},
+        {"op": "u7rt", "cps": cps_of("Entwürfe & mehr"), "via": "ba"},
+        {"op": "xrt", "hex": b"a+b=c \xff".hex(), "via": "codec"},
+        {"op": "xrt", "hex": b"a+b=c \xff".hex(), "via": "ba"},
     ]
     return out
 
 
 def generate(rng, tier):
+    yield from _sweeps()
     n = 2500 if tier == "quick" else 60000
     for _ in range(n):
         r = rng.random()
-        if r < 0.30:
-            yield {"op": "u7rt", "cps": _text(rng)}
-        elif r < 0.36:
+        if r < 0.20:
+            yield _with_via({"op": "u7rt", "cps": _text(rng)}, _via(rng, ["direct", "ba"]))
+        elif r < 0.24:
             yield {"op": "u7rt", "cps": _text(rng, True)}
-        elif r < 0.50:
-            yield {"op": "u7dec", "hex": _u7_bytes(rng).hex()}
-        elif r < 0.56:
-            yield {"op": "pydec", "hex": _u7_bytes(rng).replace(b"&", b"+").replace(b",", b"/").hex()}
+        elif r < 0.29:
+            yield {"op": "u7rt", "cps": _long_text(rng, tier)}
+        elif r < 0.35:
+            yield _with_via({"op": "u7rt", "cps": _uni_text(rng)}, _via(rng, ["direct", "ba"]))
+        elif r < 0.40:
+            yield _with_via({"op": "u7rt", "cps": _u7_lookalike(rng)}, _via(rng, ["direct", "ba"]))
+        elif r < 0.43:
+            yield {"op": "u7seq", "seq": _u7_seq(rng)}
+        elif r < 0.55:
+            if rng.random() < 0.15:     # well-formed input straight to the decoder: the encoding of a look-alike text
+                yield {"op": "u7dec", "hex": _ref_u7(to_str(_u7_lookalike(rng))).hex()}
+            else:
+                yield {"op": "u7dec", "hex": _u7_bytes(rng).hex()}
         elif r < 0.60:
-            yield {"op": "pyenc", "cps": _text(rng, True)}
+            yield {"op": "pydec", "hex": _u7_bytes(rng).replace(b"&", b"+").replace(b",", b"/").hex()}
         elif r < 0.63:
-            yield {"op": "u16", "cps": _text(rng, True)}
-        elif r < 0.66:
-            yield {"op": "b64", "hex": _bytes(rng).hex()}
-        elif r < 0.86:
-            yield {"op": "xrt", "hex": _bytes(rng).hex()}
+            yield {"op": "pyenc", "cps": _text(rng, True) if rng.random() < 0.8 else _long_text(rng, "quick")}
+        elif r < 0.65:
+            yield {"op": "u16", "cps": _text(rng, True) if rng.random() < 0.8 else _long_text(rng, "quick")}
+        elif r < 0.67:
+            yield {"op": "b64", "hex": (_bytes(rng) if rng.random() < 0.7 else _long_bytes(rng, "quick")).hex()}
+        elif r < 0.79:
+            yield _with_via({"op": "xrt", "hex": _bytes(rng).hex()}, _via(rng, ["codec", "ba"]))
+        elif r < 0.83:
+            yield {"op": "xrt", "hex": _long_bytes(rng, tier).hex()}
+        elif r < 0.88:
+            yield _with_via({"op": "xrt", "hex": _x_lookalike(rng).hex()}, _via(rng, ["codec", "ba"]))
+        elif r < 0.90:
+            yield {"op": "xseq", "seq": _x_seq(rng)}
         else:
-            yield {"op": "xdec", "hex": _x_bytes(rng).hex()}
+            if rng.random() < 0.15:
+                yield {"op": "xdec", "hex": _ref_xtext(_x_lookalike(rng)).hex()}
+            else:
+                yield {"op": "xdec", "hex": _x_bytes(rng).hex()}
     if tier == "thorough":
         # every single byte through xtext; every `+ab`; every single code point class boundary
         for b in range(256):
@@ -231,9 +584,24 @@ def generate(rng, tier):
         for c in list(range(0, 0x180)) + list(range(0xD7F0, 0xE010)) + list(range(0xFFF0, 0x10010)) + [0x10FFFE, 0x10FFFF]:
             yield {"op": "u7rt", "cps": [c]}
             yield {"op": "u7rt", "cps": [0x41, c, c, 0x26]}
+        # every run length up to 300 (homogeneous BMP and astral runs, bare and framed), every xtext length up to 300
+        for k in range(1, 301):
+            yield {"op": "u7rt", "cps": [0xE9] * k}
+            yield {"op": "u7rt", "cps": [0x41] + [0x1F600] * k + [0x2D]}
+            yield {"op": "xrt", "hex": (b"a+\n=" * k)[:k].hex()}
+        # every code point the Unicode database singles out, alone and after a base letter
+        u = _uni_pools()
+        for c in sorted(set(u["nfc"]) | set(u["nfkc"]) | set(u["space"]) | set(u["comb"])):
+            yield {"op": "u7rt", "cps": [0x65, c, 0x41]}
+        for c in u["nfd"][::7]:
+            yield {"op": "u7rt", "cps": cps_of(unicodedata.normalize("NFD", chr(c)))}
 
 
 def model_line(c):
+    if c["op"] == "u7seq":
+        return "u7seq " + ";".join(enc_text(t) for t in c["seq"])
+    if c["op"] == "xseq":
+        return "xseq " + ";".join(h or "-" for h in c["seq"])
     if "cps" in c:
         return f"{c['op']} {enc_text(c['cps'])}"
     return f"{c['op']} {c['hex'] or '-'}"
@@ -242,20 +610,46 @@ def model_line(c):
 # ---------------------------------------------------------------------------------------
 # the real code
 
-def _u7dec(b):
+def _u7dec(b, via=None):
     try:
-        t = b.decode("imap4-utf-7")
+        if via == "direct":
+            t = imap4.decoder(b)[0]
+        elif via == "ba":
+            t = bytearray(b).decode("imap4-utf-7")
+        else:
+            t = b.decode("imap4-utf-7")
     except UnicodeDecodeError as e:
         return _exc(e)
     return enc_text(cps_of(t))
 
 
-def _xdec(b):
+def _xdec(b, via=None):
     try:
-        t = smtp.xtext_decode(b)[0]
+        if via == "codec":
+            t = codecs.decode(b, "xtext")
+        elif via == "ba":
+            t = smtp.xtext_decode(bytearray(b))[0]
+        else:
+            t = smtp.xtext_decode(b)[0]
     except (TypeError, UnicodeDecodeError) as e:
         return _exc(e)
     return enc_text(cps_of(t))
+
+
+def _u7rt(cps, via=None):
+    s = to_str(cps)
+    e = imap4.encoder(s)[0] if via == "direct" else s.encode("imap4-utf-7")
+    return f"enc={enc_bytes(bytes(e))} dec={_u7dec(e, via)}"
+
+
+def _xrt(b, via=None):
+    if via == "codec":
+        e = codecs.encode(b, "xtext")
+    elif via == "ba":
+        e = smtp.xtext_encode(bytearray(b))[0]
+    else:
+        e = smtp.xtext_encode(b)[0]
+    return f"enc={enc_bytes(bytes(e))} dec={_xdec(e, via)}"
 
 
 def run_impl(c):
@@ -263,8 +657,9 @@ def run_impl(c):
     if op == "u7enc":
         return enc_bytes(to_str(c["cps"]).encode("imap4-utf-7"))
     if op == "u7rt":
-        e = to_str(c["cps"]).encode("imap4-utf-7")
-        return f"enc={enc_bytes(e)} dec={_u7dec(e)}"
+        return _u7rt(c["cps"], c.get("via"))
+    if op == "u7seq":
+        return ";".join(_u7rt(t) for t in c["seq"])
     if op == "u7dec":
         return _u7dec(bytes.fromhex(c["hex"]))
     if op == "pyenc":
@@ -281,8 +676,9 @@ def run_impl(c):
     if op == "xenc":
         return enc_bytes(smtp.xtext_encode(bytes.fromhex(c["hex"]))[0])
     if op == "xrt":
-        e = smtp.xtext_encode(bytes.fromhex(c["hex"]))[0]
-        return f"enc={enc_bytes(e)} dec={_xdec(e)}"
+        return _xrt(bytes.fromhex(c["hex"]), c.get("via"))
+    if op == "xseq":
+        return ";".join(_xrt(bytes.fromhex(h)) for h in c["seq"])
     if op == "xdec":
         return _xdec(bytes.fromhex(c["hex"]))
     raise ValueError(op)
@@ -356,69 +752,151 @@ def _classes(cps):
     return s
 
 
+def _judge_u7(cps, piece, sfx=""):
+    if any(0xD800 <= x <= 0xDFFF for x in cps):
+        return None     # outside the statement
+    s = to_str(cps)
+    e, dec = _split_rt(piece)
+    if e is None:
+        return {"key": "utf7-encode-raises" + sfx, "detail": f"{_short(s)}: {piece[:200]}"}
+    ws = "-ws" if _classes(cps) & {"ws"} else ""
+    meaning, why = rfc3501_meaning(e)
+    if meaning is None:
+        return {"key": "utf7-form" + ws + sfx, "detail": f"{_short(s)} encodes to {_short(e)}: {why}"}
+    if meaning != s:
+        return {"key": "utf7-meaning" + ws + sfx,
+                "detail": f"{_short(s)} encodes to {_short(e)} which RFC 3501 reads as {_short(meaning)}"}
+    if dec != enc_text(cps):
+        return {"key": "utf7-roundtrip" + ws + sfx, "detail": f"{_short(s)} encodes to {_short(e)} which decodes to {dec[:200]}"}
+    return None
+
+
+def _judge_x(b, piece, sfx=""):
+    e, dec = _split_rt(piece)
+    if e is None:
+        return {"key": "xtext-encode-raises" + sfx, "detail": f"{_short(b)}: {piece[:200]}"}
+    pe = "-plus-equals" if (b"+" in b or b"=" in b) else ""
+    if not _XTEXT.match(e):
+        return {"key": "xtext-form" + pe + sfx, "detail": f"{_short(b)} encodes to {_short(e)}: not *(xchar / hexchar) of RFC 3461"}
+    if dec != enc_text(list(b)):
+        return {"key": "xtext-roundtrip" + pe + sfx, "detail": f"{_short(b)} encodes to {_short(e)} which decodes to {dec[:200]}"}
+    return None
+
+
+def _short(v):
+    r = repr(v)
+    return r if len(r) <= 240 else f"{r[:150]}…{r[-60:]} (len {len(v)})"
+
+
 def oracle(c, out):
     op = c["op"]
     if op == "u7rt":
-        cps = c["cps"]
-        if any(0xD800 <= x <= 0xDFFF for x in cps):
-            return None     # outside the statement
-        s = to_str(cps)
-        e, dec = _split_rt(out)
-        if e is None:
-            return {"key": "utf7-encode-raises", "detail": f"{s!r}: {out}"}
-        ws = "-ws" if _classes(cps) & {"ws"} else ""
-        meaning, why = rfc3501_meaning(e)
-        if meaning is None:
-            return {"key": "utf7-form" + ws, "detail": f"{s!r} encodes to {e!r}: {why}"}
-        if meaning != s:
-            return {"key": "utf7-meaning" + ws, "detail": f"{s!r} encodes to {e!r} which RFC 3501 reads as {meaning!r}"}
-        if dec != enc_text(cps):
-            return {"key": "utf7-roundtrip" + ws, "detail": f"{s!r} encodes to {e!r} which decodes to {dec}"}
-        return None
+        return _judge_u7(c["cps"], out)
     if op == "xrt":
-        b = bytes.fromhex(c["hex"])
-        e, dec = _split_rt(out)
-        if e is None:
-            return {"key": "xtext-encode-raises", "detail": f"{b!r}: {out}"}
-        pe = "-plus-equals" if (b"+" in b or b"=" in b) else ""
-        if not _XTEXT.match(e):
-            return {"key": "xtext-form" + pe, "detail": f"{b!r} encodes to {e!r}: not *(xchar / hexchar) of RFC 3461"}
-        if dec != enc_text(list(b)):
-            return {"key": "xtext-roundtrip" + pe, "detail": f"{b!r} encodes to {e!r} which decodes to {dec}"}
+        return _judge_x(bytes.fromhex(c["hex"]), out)
+    if op in ("u7seq", "xseq"):
+        # a history: EVERY round trip in it has to satisfy the statement, whatever was encoded before it
+        pieces = out.split(";")
+        if len(pieces) != len(c["seq"]):
+            return {"key": ("utf7" if op == "u7seq" else "xtext") + "-encode-raises-seq", "detail": f"{c['seq']}: {out[:200]}"}
+        for k, (item, piece) in enumerate(zip(c["seq"], pieces)):
+            r = _judge_u7(item, piece, "-seq") if op == "u7seq" else _judge_x(bytes.fromhex(item), piece, "-seq")
+            if r:
+                r["detail"] = f"call {k + 1} of {len(pieces)}: " + r["detail"]
+                return r
         return None
     return None
 
 
+def _chunks_removed(x):
+    """x with a half / quarter / eighth cut out (long inputs shrink in O(log n) steps before the one-by-one pass)"""
+    n = len(x)
+    for parts in (2, 4, 8):
+        size = n // parts
+        if size < 2:
+            break
+        for k in range(parts):
+            yield x[:k * size] + x[(k + 1) * size:]
+
+
 def shrink(c):
+    via = {"via": c["via"]} if c.get("via") else {}
+    if via:
+        yield {k: v for k, v in c.items() if k != "via"}
+    if c["op"] in ("u7seq", "xseq"):
+        seq = c["seq"]
+        for i in range(len(seq)):
+            if len(seq) > 1:
+                yield {"op": c["op"], "seq": seq[:i] + seq[i + 1:]}
+        if len(seq) == 1:
+            yield ({"op": "u7rt", "cps": seq[0]} if c["op"] == "u7seq" else {"op": "xrt", "hex": seq[0]})
+        for i, item in enumerate(seq):
+            inner = {"op": "u7rt", "cps": item} if c["op"] == "u7seq" else {"op": "xrt", "hex": item}
+            for sm in shrink(inner):
+                yield {"op": c["op"], "seq": seq[:i] + [sm.get("cps", sm.get("hex"))] + seq[i + 1:]}
+        return
     if "cps" in c:
         x = c["cps"]
+        if len(x) > 12:
+            for y in _chunks_removed(x):
+                yield {"op": c["op"], "cps": y, **via}
         for i in range(len(x)):
-            yield {"op": c["op"], "cps": x[:i] + x[i + 1:]}
+            yield {"op": c["op"], "cps": x[:i] + x[i + 1:], **via}
         for i, v in enumerate(x):
             for w in (0x41, 10, 0xE9):
                 if v != w and v > w:
-                    yield {"op": c["op"], "cps": x[:i] + [w] + x[i + 1:]}
+                    yield {"op": c["op"], "cps": x[:i] + [w] + x[i + 1:], **via}
     else:
         b = bytes.fromhex(c["hex"])
+        if len(b) > 12:
+            for y in _chunks_removed(b):
+                yield {"op": c["op"], "hex": y.hex(), **via}
         for i in range(len(b)):
-            yield {"op": c["op"], "hex": (b[:i] + b[i + 1:]).hex()}
+            yield {"op": c["op"], "hex": (b[:i] + b[i + 1:]).hex(), **via}
+
+
+def _text_tag(cps):
+    cl = "".join(sorted(_classes(cps)))
+    if len(cps) > 12:
+        cl += "+long"
+    if any(c > 0x7F and (unicodedata.combining(chr(c)) or unicodedata.normalize("NFKC", chr(c)) != chr(c)) for c in cps[:64]
+           if not 0xD800 <= c <= 0xDFFF):
+        cl += "+uni"
+    if 0x26 in cps and 0x2D in cps[cps.index(0x26):]:
+        cl += "+look"
+    return cl
+
+
+def _bytes_tag(b):
+    cl = "".join(sorted({"p" if x in (0x2B, 0x3D) else "a" if 33 <= x <= 126 else "h" if x >= 128 else "c" for x in b}))
+    if len(b) > 12:
+        cl += "+long"
+    if re.search(rb"[!-~][0-9A-Fa-f]{2}", b):
+        cl += "+look"
+    return cl
 
 
 def tag(c, out):
-    if "cps" in c:
-        cl = "".join(sorted(_classes(c["cps"])))
+    if c["op"] == "u7seq":
+        cl = f"seq{len(c['seq'])}:" + _text_tag([x for t in c["seq"] for x in t])
+    elif c["op"] == "xseq":
+        cl = f"seq{len(c['seq'])}:" + _bytes_tag(b"".join(bytes.fromhex(h) for h in c["seq"]))
+    elif "cps" in c:
+        cl = _text_tag(c["cps"])
     else:
-        b = bytes.fromhex(c["hex"])
-        cl = "".join(sorted({"p" if x in (0x2B, 0x3D) else "a" if 33 <= x <= 126 else "h" if x >= 128 else "c" for x in b}))
+        cl = _bytes_tag(bytes.fromhex(c["hex"]))
+    if c.get("via"):
+        cl += "/" + c["via"]
     if "!raised" in out:
-        oc = out[out.index("!raised"):]
+        oc = out[out.index("!raised"):][:40]
     else:
         oc = "ok"
     return f"{c['op']}:{cl}:{oc}"
 
 
 def search(rng, tier, disagreeing):
-    """Property-directed: every single code point / byte, and every pair of classes, through the round trip."""
+    """Property-directed: every single code point / byte, every pair of classes, every run length and every look-alike
+    through the round trip."""
     for b in range(256):
         yield {"op": "xrt", "hex": bytes([b]).hex()}
         yield {"op": "xrt", "hex": bytes([0x61, b, 0x34, 0x31]).hex()}
@@ -429,7 +907,27 @@ def search(rng, tier, disagreeing):
             yield {"op": "u7rt", "cps": [a, b]}
             for d in reps:
                 yield {"op": "u7rt", "cps": [a, b, d]}
+    for k in range(13, 140):
+        yield {"op": "u7rt", "cps": [0xE9] * k}
+        yield {"op": "u7rt", "cps": [0x41] + [0x1F600] * k + [0x2D]}
+        yield {"op": "xrt", "hex": (b"a+\n=" * k)[:k].hex()}
+    for a in U7_LOOK:
+        for b in U7_LOOK:
+            yield {"op": "u7rt", "cps": cps_of(a + b)}
+    for a in X_LOOK:
+        for b in X_LOOK:
+            yield {"op": "xrt", "hex": (a + b).hex()}
+    for c in UNI_CP:
+        yield {"op": "u7rt", "cps": [0x65, c, 0x41]}
+    for t in UNI_SEQ:
+        yield {"op": "u7rt", "cps": list(t)}
     for c in disagreeing:
         if "cps" in c:
             yield {"op": "u7rt", "cps": [x for x in c["cps"] if not 0xD800 <= x <= 0xDFFF]}
+        elif c["op"] == "u7seq":
+            for t in c["seq"]:
+                yield {"op": "u7rt", "cps": [x for x in t if not 0xD800 <= x <= 0xDFFF]}
+        elif c["op"] == "xseq":
+            for h in c["seq"]:
+                yield {"op": "xrt", "hex": h}
     yield from generate(rng, "quick")
